@@ -364,7 +364,15 @@ func (p *pipeComp) Generate(rng *rand.Rand, n int, emit func(Case)) {
 		nl := 8
 		for k := 0; k < nl; k++ {
 			var line []byte
-			switch rng.Intn(7) {
+			switch rng.Intn(8) {
+			case 7:
+				// a record with a real newline in its message (a multi-line record as the framer glues it), and one with escape
+				// sequences: what one record's content says about escaping must not carry over to the next
+				if rng.Intn(2) == 0 {
+					line = mkLine(13, "2019-08-15T15:50:46Z", "h", "app1", "7", "src", "-", "first line\n  at second.line(Of.java:1) "+xVal(rng))
+				} else {
+					line = mkLine(13, "2019-08-15T15:50:46Z", "h", "app1", "7", "src", "-", "escaped \\n and \\t stay one line "+xVal(rng))
+				}
 			case 0:
 				line = []byte(badLines[rng.Intn(len(badLines))])
 			case 1:
